@@ -3,7 +3,8 @@
    ReasonProofs.v, Props5*.v.  Specification: Codec/PropSpec.v, Codec/ReasonSpec.v, Codec/SubOpts.v (its spec_ definitions).
    GT / GR are the tables generated from the current source (Gen/GenPropTable.v, Gen/GenReasonTable.v).
    `_full` statements that the faithful model violates are kept as Definitions, with `_refuted` witnesses
-   (open findings F-C17b..h) and `_partial` theorems that name the exclusion. *)
+   (open findings F-C17f, g, h) and `_partial` theorems that name the exclusion.  F-C17a..e are repaired in /repo:
+   their statements are proved in full. *)
 From Coq Require Import String.
 From PahoV Require Import Base.Prelude Codec.StrBytes Codec.Utf8 Codec.VBI Codec.VBIProofs Codec.VBIBridge
   Codec.SubOpts Codec.SubOptsProofs Codec.Reason Codec.ReasonSpec Codec.ReasonProofs
@@ -78,11 +79,9 @@ Theorem C17_multi_eq_spec_refuted :
 Proof. exact multi_eq_spec_refuted. Qed.
 Print Assumptions C17_multi_eq_spec_refuted.
 
-(* the value checks of __setattr__ against the specification's ranges (F-C17b, F-C17e are the two deviations) *)
+(* the value checks of __setattr__ ARE the specification's ranges, on every type-correct value of every property *)
 Theorem C17_range_vs_spec : forall i w v n, In (n, i) (t_names GT) -> spec_type i = Some w -> spec_fits w v = true ->
-  code_range_ok GT i v =
-    if memz i flag_ids then true
-    else spec_in_range i v && match v with VInt x => negb (i =? 39) || (x <=? 268435455) | _ => true end.
+  code_range_ok GT i v = spec_in_range i v.
 Proof. exact code_range_vs_spec. Qed.
 Print Assumptions C17_range_vs_spec.
 
@@ -133,7 +132,6 @@ Print Assumptions C17_pack_spec.
 Theorem C17_setattr_valid : forall pt st n i name v,
   In (n, i) (t_names GT) -> compress name = compress n -> 0 <= pt < 128 ->
   spec_allowed pt i = true -> spec_value_ok i v = true ->
-  (forall x, v = VInt x -> i = 39 -> x <= 268435455) ->
   wf_state GT pt st = true ->
   exists st', setattr GT pt st name (One v) = Ok st' /\ wf_state GT pt st' = true
     /\ assoc i st' = Some (if memz i (t_multi GT)
@@ -144,25 +142,11 @@ Proof. exact c17_setattr_valid. Qed.
 Print Assumptions C17_setattr_valid.
 
 (* ================= 5. round trip ================= *)
-Theorem C17_roundtrip_partial : forall pt st rest,
+Theorem C17_roundtrip : forall pt st rest,
   wf_state GT pt st = true -> body_small GT st = true -> spec_range_state st = true ->
-  maxpkt_small st = true -> no_feff_state st = true ->
   exists b, pack GT st = Ok b /\ unpack GT pt (b ++ rest) = Ok (norm GT st, blen b).
-Proof. exact c17_roundtrip_partial. Qed.
-Print Assumptions C17_roundtrip_partial.
-
-Theorem C17_roundtrip_refuted_b : roundtrip_fails CONNECT [(39, One (VInt 268435456))] [].
-Proof. exact c17_roundtrip_refuted_b. Qed.
-Print Assumptions C17_roundtrip_refuted_b.
-
-Theorem C17_roundtrip_refuted_d :
-  roundtrip_fails PUBLISH [(38, Many [VPair (SStr [239; 187; 191]) (SStr [120])])] [].
-Proof. exact c17_roundtrip_refuted_d. Qed.
-Print Assumptions C17_roundtrip_refuted_d.
-
-Theorem C17_roundtrip_refuted : ~ c17_roundtrip_full.
-Proof. exact c17_roundtrip_refuted. Qed.
-Print Assumptions C17_roundtrip_refuted.
+Proof. exact c17_roundtrip. Qed.
+Print Assumptions C17_roundtrip.
 
 (* unpack never runs out of the fuel it is given *)
 Theorem C17_unpack_fuel : forall T pt buf, unpack T pt buf <> OutOfFuel.
@@ -182,12 +166,12 @@ Theorem C17_rejects_not_allowed : forall pt st n i name a,
 Proof. exact c17_rejects_not_allowed. Qed.
 Print Assumptions C17_rejects_not_allowed.
 
-Theorem C17_rejects_int_partial : forall pt st n i name x st' b,
-  In (n, i) (t_names GT) -> compress name = compress n -> memz i flag_ids = false ->
+Theorem C17_rejects_int : forall pt st n i name x st' b,
+  In (n, i) (t_names GT) -> compress name = compress n ->
   spec_value_ok i (VInt x) = false ->
   setattr GT pt st name (One (VInt x)) = Ok st' -> pack GT st' <> Ok b.
-Proof. exact c17_rejects_int_partial. Qed.
-Print Assumptions C17_rejects_int_partial.
+Proof. exact c17_rejects_int. Qed.
+Print Assumptions C17_rejects_int.
 
 Theorem C17_rejects_list_nonrepeatable : forall pt st n i name l st' b,
   In (n, i) (t_names GT) -> compress name = compress n -> memz i (t_multi GT) = false ->
@@ -195,19 +179,14 @@ Theorem C17_rejects_list_nonrepeatable : forall pt st n i name l st' b,
 Proof. exact c17_rejects_list_nonrepeatable. Qed.
 Print Assumptions C17_rejects_list_nonrepeatable.
 
-Theorem C17_rejects_subid_list_partial : forall pt st name l st' b x,
-  compress name = compress (bytes_of "Subscription Identifier") ->
-  In (VInt x) l -> (x < 0 \/ x > 268435455) ->
+Theorem C17_rejects_list_int : forall pt st n i name l x st' b,
+  In (n, i) (t_names GT) -> compress name = compress n ->
+  In (VInt x) l -> spec_value_ok i (VInt x) = false ->
   setattr GT pt st name (Many l) = Ok st' -> pack GT st' <> Ok b.
-Proof. exact c17_rejects_subid_list_partial. Qed.
-Print Assumptions C17_rejects_subid_list_partial.
+Proof. exact c17_rejects_list_int. Qed.
+Print Assumptions C17_rejects_list_int.
 
-Theorem C17_rejects_refuted_c : reaches_wire SUBSCRIBE "Subscription Identifier" 11 (Many [VInt 0]) [2; 11; 0].
-Proof. exact c17_rejects_refuted_c. Qed.
-Print Assumptions C17_rejects_refuted_c.
-Theorem C17_rejects_refuted_e : reaches_wire CONNACK "Maximum QoS" 36 (One (VInt 2)) [2; 36; 2].
-Proof. exact c17_rejects_refuted_e. Qed.
-Print Assumptions C17_rejects_refuted_e.
+(* the full rejection statement c17_rejects_full is still refuted by the open findings F-C17f, g, h *)
 Theorem C17_rejects_refuted_f :
   reaches_wire PUBLISH "Content Type" 3 (One (VS (SStr [97; 0; 98]))) [6; 3; 0; 3; 97; 0; 98].
 Proof. exact c17_rejects_refuted_f. Qed.
@@ -265,8 +244,7 @@ Definition ex_state : pstate :=
     (1, One (VInt 1)) ].
 
 Example C17_hyps_satisfiable :
-  wf_state GT PUBLISH ex_state = true /\ body_small GT ex_state = true /\ spec_range_state ex_state = true
-  /\ maxpkt_small ex_state = true /\ no_feff_state ex_state = true.
+  wf_state GT PUBLISH ex_state = true /\ body_small GT ex_state = true /\ spec_range_state ex_state = true.
 Proof. repeat split; vm_compute; reflexivity. Qed.
 
 (* the example packs to the specification's bytes (table order, repeated properties in insertion order)
@@ -285,6 +263,19 @@ Example C17_example_assign :
                           (bytes_of "User Property", Many [VPair (SStr [99]) (SStr [100])]) ]
   = Ok [ (35, One (VInt 7)); (38, Many [VPair (SStr [97]) (SStr [98]); VPair (SStr [99]) (SStr [100])]) ].
 Proof. vm_compute. reflexivity. Qed.
+
+(* the witnesses of the repaired findings F-C17b..e now behave as the specification says *)
+Example C17_repaired_witnesses :
+  (exists b, pack GT [(39, One (VInt 4294967295))] = Ok b
+             /\ unpack GT CONNECT b = Ok ([(39, One (VInt 4294967295))], blen b))
+  /\ setattr GT SUBSCRIBE [] (bytes_of "SubscriptionIdentifier") (Many [VInt 0]) = Raise 3
+  /\ (exists b, pack GT [(38, Many [VPair (SStr [239; 187; 191]) (SStr [120])])] = Ok b
+             /\ unpack GT PUBLISH b = Ok ([(38, Many [VPair (SStr [239; 187; 191]) (SStr [120])])], blen b))
+  /\ setattr GT CONNACK [] (bytes_of "MaximumQoS") (One (VInt 2)) = Raise 3.
+Proof.
+  split; [eexists; split; vm_compute; reflexivity|]. split; [vm_compute; reflexivity|].
+  split; [eexists; split; vm_compute; reflexivity|]. vm_compute; reflexivity.
+Qed.
 
 Example C17_reason_nonvacuous :
   spec_allows CONNACK 153 = true /\ rc_new GR CONNACK name_success 153 = Ok 153 /\
